@@ -162,7 +162,7 @@ func VerifC02() {
 	pool := &c02Pool{txs: txs}
 	cores := 1
 	if nTxs > 1 {
-		cores = 1 + verifChoose("cores", 2)
+		cores = 1 + verifChoose("cores", verifParam("maxCores", 1, 2))
 	}
 	cfg := Config{TransactionExecutionCores: cores, StateFetchConcurrency: 1, TargetBuildDuration: time.Hour, TargetTxsSize: 1 << 20}
 	metrics, err := NewMetrics(prometheus.NewRegistry())
